@@ -11,6 +11,7 @@ implementation, the two official BIP32 vectors, public/private commutation, hard
 trip on every table network and key type, cache transparency, path spellings / ranges, Electrum commutation.
 """
 from common import *
+import struct
 import hashlib, hmac as _hmac, importlib.util, itertools, sys, types, logging
 logging.getLogger("pycoin.key.bip32").disabled = True      # the 'lotto ticket' message of the forced-HMAC scenarios
 
@@ -526,7 +527,8 @@ def rnd_range_item(rng, allow_hard=True):
         if rng.random() < 0.1:
             s = "+" + s
     else:
-        s = rng.choice(["1-2-3", "a-b", "-", "3-", "-3", "1--1", "--1", "", "5- 7", "0-1_0"])
+        s = rng.choice(["1-2-3", "a-b", "-", "3-", "-3", "1--1", "--1", "", "5- 7", "0-1_0", "\xb2", "\xb2-3", "2-\xb3", "9-3", "2147483646-2147483645",
+                        "\xa04-\xa05", "\xb9"])
     if allow_hard and rng.random() < 0.35:
         s += rng.choice(HCH)
     return s
@@ -975,14 +977,23 @@ def _sec_electrum(rng, tier):
     for n in range(150 if Q else 3000):
         k = rnd_secret(rng) % N_ORDER or 1
         pub = rng.random() < 0.5
-        path = rng.choice(["0", "1", "0/0", "0/1", "5/1", "17", "1/2/3", "", "/", "a/b", "0/", "/1", "00/1", "3-5"]) if rng.random() < 0.6 \
-            else "%d/%d" % (rng.getrandbits(16), rng.getrandbits(1))
+        r = rng.random()
+        if r < 0.5:
+            path = rng.choice(["0", "1", "0/0", "0/1", "5/1", "17", "1/2/3", "", "/", "a/b", "0/", "/1", "00/1", "3-5"])
+        elif r < 0.65:
+            # Latin-1 characters: the path text is hashed as UTF-8 (superscript digits, NBSP, accented letters, 0x80, 0xff)
+            path = rng.choice(["\xb2", "\xb2/1", "4\xb9/\xb3", "\xa05", "\xe9/0", "\x80", "\xff/\x7f", "0/\xb2"]) if rng.random() < 0.6 \
+                else "".join(chr(rng.choice([0xb2, 0xb9, 0x31, 0x80, 0xff, 0x7f, 0xc2, rng.getrandbits(8)])) for _ in range(rng.randint(1, 4))).replace("/", "")
+        else:
+            path = "%d/%d" % (rng.getrandbits(16), rng.getrandbits(1))
         def mkw(k=k, pub=pub):
             return E.electrum_public(master_public_key=_o_xy(k.to_bytes(32, "big"))) if pub else E.electrum_private(master_private_key=k)
         yield Case("electrum_subkey %s %s %s" % ("N" if pub else arg(k), arg(k), arg(s2b(path))),
                    (lambda mkw=mkw, path=path: call9(lambda: ew_tuple(mkw().subkey(path)))))
         if n % 5 == 0:
-            rp = rnd_range_path(rng, allow_hard=False) if rng.random() < 0.5 else rng.choice(["0-3", "0-2/0-1", "1,2/0", "0-1/0-1/0", "5"])
+            rp = rnd_range_path(rng, allow_hard=False) if rng.random() < 0.4 else \
+                rng.choice(["0-3", "0-2/0-1", "1,2/0", "0-1/0-1/0", "5", "4,\xb2,2147483646-2147483645", "\xb2,\xb3", "3-1", "3-1,7", "5-4/0",
+                            "\xb2-\xb3", "1-\xb2", "0,\xe9/1-0", "\xa01-\xa02", "2-2,\xb9"])
             def impl_sk(mkw=mkw, rp=rp):
                 try:
                     w = mkw()
@@ -1487,6 +1498,131 @@ def chk_family(seed, pub, fops):
     return None
 
 
+def chk_deep(sym, kt, seed, start_depth, steps, idx, pub, ap):
+    """metadata that does not fit its field is never silently wrapped: a node of depth start_depth (built by the
+    constructor), `steps` derivations further down, child number idx on the start node: serialize / hwif either REFUSE
+    (ValueError / struct.error) or the text parses back with every field preserved; depths 0..255 with a 32-bit child number
+    must not be refused"""
+    row = row_of(sym, kt)
+    net = NETS[sym]
+    cls = node_class(sym, kt)
+    m = cls.from_master_secret(seed)
+    k = cls(chain_code=m.chain_code(), depth=start_depth, parent_fingerprint=b"\x01\x02\x03\x04", child_index=idx,
+            secret_exponent=m.secret_exponent())
+    for j in range(steps):
+        k = k.subkey(j % 3, is_hardened=(j % 2 == 1))
+    if pub:
+        k = k.public_copy()
+    depth = start_depth + steps
+    if k.tree_depth() != depth:
+        return {"kind": "depth-not-counted", "got": k.tree_depth(), "want": depth}
+    fits = 0 <= depth < 256 and 0 <= k.child_index() < 2 ** 32
+    use_private = ap and not pub
+    want = nd_tuple(k) if use_private else pub_view(nd_tuple(k))
+    for what in ("serialize", "hwif"):
+        try:
+            out = k.serialize(as_private=use_private) if what == "serialize" else k.hwif(as_private=use_private)
+        except (ValueError, struct.error) as e:
+            if fits:
+                return {"kind": "representable-node-refused", "what": what, "depth": depth, "detail": "%s: %s" % (type(e).__name__, e)}
+            continue
+        except Exception as e:
+            return {"kind": "unexpected-exception", "what": what, "depth": depth, "detail": "%s: %s" % (type(e).__name__, e)}
+        if what == "serialize":
+            pfx = row[4] if use_private else row[5]
+            back = call9(lambda: nd_tuple(cls.deserialize(pfx + out)))
+        else:
+            back = call9(lambda: (lambda r: None if r is None else nd_tuple(r))(getattr(net.parse, "bip%d" % kt)(out)))
+        if back != canon(want):
+            return {"kind": "metadata-wrapped-in-round-trip", "what": what, "depth": depth, "child_index": k.child_index(),
+                    "written": out if isinstance(out, str) else out.hex(), "back": back[:300], "want": canon(want)[:300]}
+    return None
+
+
+class _IntSub(int):
+    pass
+
+
+def chk_presentation(seed, i, h):
+    """the same input presented differently (bytes / bytearray / memoryview, int subclass / bool, str subclass) gives the same
+    key or is refused with TypeError -- never a different key; and the order of presentation on one node does not matter"""
+    base = nd_tuple(BTC.keys.bip32_seed(seed))
+    for name, alt in (("bytearray", bytearray(seed)), ("memoryview", memoryview(seed))):
+        try:
+            t = nd_tuple(BTC.keys.bip32_seed(alt))
+        except TypeError:
+            continue
+        if t != base:
+            return {"kind": "seed-presentation-changes-key", "as": name}
+    blob = BTC_XPRV + BTC.keys.bip32_seed(seed).subkey(i, is_hardened=h).serialize(as_private=True)
+    cls = node_class("BTC", 32)
+    ref = nd_tuple(cls.deserialize(blob))
+    for name, alt in (("bytearray", bytearray(blob)), ("memoryview", memoryview(blob))):
+        try:
+            t = nd_tuple(cls.deserialize(alt))
+        except TypeError:
+            continue
+        if t != ref:
+            return {"kind": "blob-presentation-changes-key", "as": name}
+    want = nd_tuple(fresh_copy(BTC.keys.bip32_seed(seed))._subkey(i, h, True))
+    for order in ((_IntSub(i), i), (i, _IntSub(i))) + (((True, 1), (1, True)) if i == 1 else ()) + (((False, 0), (0, False)) if i == 0 else ()):
+        m = BTC.keys.bip32_seed(seed)
+        for x in order:
+            t = nd_tuple(m.subkey(x, is_hardened=h))
+            if t != want or type(t[3]) is not int:
+                return {"kind": "index-presentation-changes-key", "as": type(x).__name__, "order": [type(y).__name__ for y in order]}
+
+    class S(str):
+        pass
+    path = "%d%s/7" % (i, "H" if h else "")
+    m = BTC.keys.bip32_seed(seed)
+    if nd_tuple(m.subkey_for_path(S(path))) != nd_tuple(BTC.keys.bip32_seed(seed).subkey_for_path(path)):
+        return {"kind": "path-presentation-changes-key"}
+    return None
+
+
+UNI_DIGITS = {"arabic-indic": 0x0660, "extended-arabic": 0x06F0, "devanagari": 0x0966, "fullwidth": 0xFF10, "math-bold": 0x1D7CE}
+
+
+def chk_unicode_path(seed, toks, script, k_el):
+    """decimal digits of other scripts (accepted by int()) name the same children as ASCII digits, in paths and in ranges;
+    characters that are digits only for str.isdigit (superscripts) are refused with ValueError by the path parser and pass
+    through range expansion verbatim; Electrum hashes the path text as UTF-8 and commutes with going public for any text"""
+    base = UNI_DIGITS[script]
+    tr = lambda s: "".join(chr(base + ord(c) - 48) if c.isdigit() else c for c in s)
+    m = BTC.keys.bip32_seed(seed)
+    ascii_path = "/".join("%d%s" % (i, "H" if h else "") for i, h in toks)
+    want = nd_tuple(BTC.keys.bip32_seed(seed).subkey_for_path(ascii_path))
+    if nd_tuple(m.subkey_for_path(tr(ascii_path))) != want:
+        return {"kind": "unicode-digits-name-another-child", "script": script, "path": ascii_path}
+    lo = toks[0][0]
+    rng_text = "%d-%d" % (lo, lo + 2)
+    if list(subpaths_for_path_range(tr(rng_text))) != [str(lo), str(lo + 1), str(lo + 2)]:
+        return {"kind": "unicode-range", "script": script, "range": rng_text}
+    if list(subpaths_for_path_range("%d-%d" % (lo + 2, lo))) != [] or list(subpaths_for_path_range("%d-%d,7" % (lo + 2, lo))) != ["7"]:
+        return {"kind": "reversed-range-not-empty"}
+    for sup in ("\u00b2", "1\u00b9", "\u2075"):
+        try:
+            m.subkey_for_path(sup)
+            return {"kind": "superscript-accepted-as-index", "text": sup}
+        except ValueError:
+            pass
+        if list(subpaths_for_path_range("4," + sup)) != ["4", sup]:
+            return {"kind": "superscript-range-item", "text": sup}
+        try:
+            list(subpaths_for_path_range(sup + "-9"))
+            return {"kind": "superscript-range-bound-accepted", "text": sup}
+        except ValueError:
+            pass
+    # Electrum: any text, private and public agree, and the child is (k + dsha256(utf8(text:0:) + mpk)) mod n
+    for text in (tr("%d" % lo), "\u00b2", "\u00e9", "%d" % lo):
+        r = chk_electrum(k_el, text)
+        if r is not None:
+            r["path_text"] = text
+            return r
+    return None
+
+
 def chk_spellings(seed, toks, pub):
     """toks: list of (index, hardened): the three spellings give the same node; a range path expands to the product"""
     m = BTC.keys.bip32_seed(seed)
@@ -1659,6 +1795,38 @@ def prop_cases(rng, tier):
         calls = [rng.choice(pool) for _ in range(rng.randint(1, 14))]
         inp = {"seed": seed.hex(), "pub": pub, "calls": [list(c) for c in calls]}
         yield PropCase("cache", inp, (lambda seed=seed, pub=pub, calls=calls: chk_cache(seed, pub, calls)))
+    # metadata that does not fit its field: depth around and beyond 255 / 256 (constructor + derivations), child numbers
+    # outside 32 bits; on real networks and key types
+    deep = [(d0, st) for d0 in (0, 250, 253, 254, 255, 256, 257, 300, 511, 512, 1000, 65535, -1, -3) for st in (0, 1, 3)]
+    for n, (d0, st) in enumerate(deep):
+        for pub in (False, True):
+            sym, kt = real[(n + pub) % len(real)]
+            seed, idx, ap = _seed(rng), rng.choice([0, 5, 2 ** 31, 2 ** 32 - 1]), rng.random() < 0.5
+            inp = {"net": sym, "kt": kt, "seed": seed.hex(), "start_depth": d0, "steps": st, "idx": idx, "pub": pub, "ap": ap}
+            yield PropCase("deep", inp, (lambda sym=sym, kt=kt, seed=seed, d0=d0, st=st, idx=idx, pub=pub, ap=ap:
+                                         chk_deep(sym, kt, seed, d0, st, idx, pub, ap)))
+    for n in range(20 if Q else 600):
+        sym, kt = real[n % len(real)]
+        seed = _seed(rng)
+        d0 = rng.choice([rng.randint(240, 270), rng.randint(0, 255), 256 * rng.randint(1, 300) + rng.randint(0, 255)])
+        st, idx = rng.randint(0, 4), rng.choice([0, 2 ** 32 - 1, 2 ** 32, -1, 2 ** 40 + 7, rng.getrandbits(32)])
+        pub, ap = rng.random() < 0.4, rng.random() < 0.5
+        inp = {"net": sym, "kt": kt, "seed": seed.hex(), "start_depth": d0, "steps": st, "idx": idx, "pub": pub, "ap": ap}
+        yield PropCase("deep", inp, (lambda sym=sym, kt=kt, seed=seed, d0=d0, st=st, idx=idx, pub=pub, ap=ap:
+                                     chk_deep(sym, kt, seed, d0, st, idx, pub, ap)))
+    # one real derivation path of depth 256 from a master key (what the seeded depth wrap needs), then 4 more levels
+    yield PropCase("deep", {"net": "BTC", "kt": 32, "seed": "00" * 16, "start_depth": 0, "steps": 260, "idx": 0, "pub": False, "ap": True},
+                   (lambda: chk_deep("BTC", 32, b"\0" * 16, 0, 260, 0, False, True)))
+    for n in range(30 if Q else 600):
+        seed, i, h = _seed(rng), rng.choice([0, 1, 1, 0, 2 ** 31 - 1, rng.getrandbits(31)]), rng.random() < 0.5
+        yield PropCase("presentation", {"seed": seed.hex(), "i": i, "h": h}, (lambda seed=seed, i=i, h=h: chk_presentation(seed, i, h)))
+    for n in range(25 if Q else 500):
+        seed = _seed(rng)
+        toks = [(rng.choice(IDX) if rng.random() < 0.6 else rng.getrandbits(30), rng.random() < 0.4) for _ in range(rng.randint(1, 4))]
+        script = sorted(UNI_DIGITS)[n % len(UNI_DIGITS)]
+        k_el = rnd_secret(rng) % N_ORDER or 1
+        yield PropCase("unicode_path", {"seed": seed.hex(), "toks": [list(t) for t in toks], "script": script, "k": k_el},
+                       (lambda seed=seed, toks=toks, script=script, k_el=k_el: chk_unicode_path(seed, toks, script, k_el)))
     # families: fixed twin scenarios (every ordered pair of calls on a private node and its public copy), then random ones
     twin_calls = [(rid, (i, h, ap)) for rid in (0, 1) for i in (1, 5) for h in (False, True) for ap in (None, True, False)]
     seed0 = bytes(range(16))
@@ -1726,6 +1894,12 @@ def replay_input(check, inp):
         return chk_metadata(b(inp["seed"]), inp["p1"], inp["i"], inp["h"], inp["pub"])
     if check == "text_roundtrip":
         return chk_text_roundtrip(inp["net"], inp["kt"], b(inp["seed"]), inp["path"], inp["ap"])
+    if check == "unicode_path":
+        return chk_unicode_path(b(inp["seed"]), [tuple(t) for t in inp["toks"]], inp["script"], int(inp["k"]))
+    if check == "deep":
+        return chk_deep(inp["net"], inp["kt"], b(inp["seed"]), inp["start_depth"], inp["steps"], int(inp["idx"]), inp["pub"], inp["ap"])
+    if check == "presentation":
+        return chk_presentation(b(inp["seed"]), int(inp["i"]), inp["h"])
     if check == "family":
         return chk_family(b(inp["seed"]), inp["pub"], fops_from_json(inp["fops"]))
     if check == "cache":
@@ -1784,6 +1958,11 @@ def search(rng, tier, disagreements, known_ids):
                 cands.append(PropCase("spellings", {"seed": seed.hex(), "toks": [[1, True], [2, False], [2 ** 24, True]], "pub": False},
                                       (lambda seed=seed: chk_spellings(seed, [(1, True), (2, False), (2 ** 24, True)], False))))
             elif fn in ("hwif_data", "hparse_data", "parse_hd_data", "serialize", "deserialize"):
+                for d0 in (255, 256, 257, 300, 512, -1):
+                    for idx in (0, 2 ** 32 - 1, 2 ** 32, -1):
+                        for pub in (False, True):
+                            cands.append(PropCase("deep", {"net": "BTC", "kt": 32, "seed": "00" * 16, "start_depth": d0, "steps": 1, "idx": idx, "pub": pub, "ap": True},
+                                                  (lambda d0=d0, idx=idx, pub=pub: chk_deep("BTC", 32, b"\0" * 16, d0, 1, idx, pub, True))))
                 for row in ROWS:
                     for ap in (True, False):
                         cands.append(PropCase("text_roundtrip", {"net": row[0], "kt": row[1], "seed": "00" * 16, "path": "0H/1", "ap": ap},
